@@ -101,7 +101,7 @@ let build (view : string) (file_ms : n) : bool * bool * n * stk =
     (sync_entry, with_config, ms, st)
   | _ -> failwith "bad-view"
 
-let run_views args = match args with
+let run_views_at (k : n) args = match args with
   | kind :: mx :: cum :: data :: views :: rest ->
     if kind <> "mp4" then "-" else
     let file_ms = (match rest with m :: _ -> cn_of_string m | [] -> cn_of_string "9223372036854775807") in
@@ -116,7 +116,7 @@ let run_views args = match args with
           let (sync_entry, with_config, ms, st) = build v file_ms in
           let cfg = if with_config then cfg_line else cfg_default in
           let rd = mp4_view sync_entry ms st in
-          let (r, _) = run rd (sanitize_prog cfg fuel) (Obj.magic (mp4_view_init sync_entry ms st data)) in
+          let (r, _) = run rd (sanitize_prog cfg fuel) (Obj.magic (mp4_view_init_at k sync_entry ms st data)) in
           show_out r
         with Failure m -> m) vs in
     let first = List.hd results in
@@ -125,8 +125,11 @@ let run_views args = match args with
     else "diff " ^ first ^ " ## " ^ String.concat " ## " (List.map (fun (v, r) -> v ^ " => " ^ r) diffs)
   | _ -> "bad-args"
 
+let run_views args = run_views_at N0 args
+
 let dispatch kind args = match kind with
   | "views" -> run_views args
+  | "viewsat" -> (match args with k :: rest -> run_views_at (cn_of_string k) rest | [] -> "bad-args")
   | "fsmax" -> "-"
   | _ -> "unknown-kind " ^ kind
 let () = main_loop dispatch
